@@ -43,7 +43,7 @@ def run(ctx):
     else:
         lines = judge(ctx, out, "memory.WriteTo around page boundaries")
         if not any('"where":"text"' in l for l in lines):
-            ctx.note("no padding function of this build contains a page boundary: .text straddling writes not exercised")
+            ctx.note("the driver found no window of three executable pages inside its own NOP sled: .text straddling writes not exercised")
     b2 = ctx.build_test("internal/patch", ["mem"], name="slotdrv")
     out2 = ctx.path("slots.ndjson")
     rc, o = ctx.run_bin(b2, "^TestVerifSlots$", env={"VERIF_OUT": out2, "VERIF_QUIET": "1"}, timeout=900)
